@@ -13,10 +13,12 @@ PROPS["C12"] = dict(
     trivial_classes=[0],
     signatures={"1": "icmp program differs from its spec", "2": "udp program differs from its spec", "3": "synack program differs from its spec",
                 "4": "drop-all program accepts a frame", "5": "tcp 4-tuple program differs from its spec",
+                "7.1": "real AF_PACKET source (on a datagram socketpair): a frame that arrived under an EARLIER filter and was still in the socket came out of Read after a new program had been installed (the drain of SetBPFAndDrain did not happen)",
                 "7": "real AF_PACKET source (on a datagram socketpair): after a history of filter installations the frames Read hands out are not those the LAST requested filter selects",
                 "6.0": "matcher yields a hop for a frame the installed filter rejects: IPv6 hop-by-hop header before ICMPv6", "6.1": "matcher yields a hop for a frame the installed capture filter rejects", "6.4": "the installation of a capture filter (which drains the socket first) discarded a reply of the target that had already been captured, e.g. the SYN-ACK of the SACK handshake (real run, parameter lab kind 12)", "6.3": "the 4-tuple capture filter a TCP run installed on a handle is not for the flow of the probes it writes through that handle (real run, parameter lab kind 12)", "6.2": "the SYN-ACK that establishes the SACK handshake is rejected by the SYN-ACK capture filter"},
     trusted_base=["x/net/bpf assembler and VM (the Coq interpreter is compared with bpf.VM on every case)",
-                  "kernel cBPF semantics = x/net/bpf VM semantics (not verified)"],
+                  "kernel cBPF semantics = x/net/bpf VM semantics (not verified)",
+                  "kind 30 (filter-install histories): the repository's afPacketSource runs on one end of an AF_UNIX datagram socketpair (verif-tagged constructor packets.VerifNewAFPacketSourceOn, /repo 7933637); the kernel's sk_filter runs an attached classic-BPF program over each datagram from its first byte whatever the socket family, so SetPacketFilter (drop-all, drain, attach), RemoveBPF and Read are the real code on a real kernel filter - the AF_PACKET socket's creation and binding are not exercised there"],
     assumptions=["programs are the ones getClassicBPFFilter returns on this tree (regenerated each run)"],
 )
 
@@ -86,7 +88,8 @@ PROPS["C08"] = dict(num=8, labs=["eng", "pol", "kern"], rule=ENG_RULE + " One ca
     nontrivial="any case other than an empty script without cancellation", trivial_classes=[0, 1],
     signatures={"8.7": "real kernel target (network namespaces, real clock): a run had not returned 2 s after the bound computed from its parameters (e.g. the TCP dial of the SACK attempt to a port that drops every SYN is not limited by the handshake timeout)", "8": "engine run exceeded its computable bound", "8.1": "cancelled run did not return the cancellation error within poll + delay", "8.2": "public-IP lookup exceeded providers x per-checker timeout",
                 "8.3": "reverse-DNS lookup exceeded its timeout / SACK handshake read outlived its 500 ms deadline", "8.4": "a whole request took longer than the bound computed from its parameters and the longest run / probe / lookup", "9": "a valid scripted run returned an error", "10": "engine panicked", "3.1": "out-of-range reply produced a path"},
-    trusted_base=ENG_TRUSTED + ["scripted http.RoundTripper honours the request's context exactly like net/http's transport would (oracle: HTTP client and resolver return by the deadline of the context they are given)"],
+    trusted_base=ENG_TRUSTED + ["scripted http.RoundTripper honours the request's context exactly like net/http's transport would (oracle: HTTP client and resolver return by the deadline of the context they are given)",
+                                "clause 8.7 (kernel lab) is the one place where elapsed time is REAL time: the bound computed from the parameters plus 2 s of slack; a run that has not returned after 20 s is reported as not returned and left behind; tools/netlab.py topology builder (nft rule that drops every segment to the firewalled port)"],
     assumptions=["net.Dialer returns by the deadline of the context it is given (oracle for the SACK dial); the request-level model takes the durations of the runs, probes and public-IP lookup as inputs (each is bounded by its own theorem)"])
 
 DRV_RULE = ("Driver lab: the real ICMP (v4, v6), UDP (v4, v6; strict, relaxed), TCP SYN (default, Paris; strict, relaxed) and SACK (strict, relaxed) drivers over the simulated wire under synctest, "
